@@ -158,9 +158,10 @@ def wire_acc(ctx, facts):
 
 
 def affine_ids(ctx, facts):
-    ctx.rule("AFFINE-ids: {u,w,r_share}_record(offset,total) = total*offset + {0,1,2}; at each call site the `total` constant exceeds every constant term used with it (joint injectivity across batches)")
+    ctx.rule("AFFINE-ids: the record ids {u,w,r_share}_record(offset, total), evaluated from their extracted expressions for offsets 0..32 with the `total` constant of each call-site group, are pairwise distinct across functions and offsets (no PRSS value / channel record is used twice across consecutive batches)")
+    from rules.C13 import ieval, NoEval
     base = "protocol::context::validator::Malicious::<'a, F, B>::"
-    consts = {}
+    exprs = {}
     for name in ("u_record", "w_record", "r_share_record"):
         b = facts.bodies.get(base + name)
         if b is None:
@@ -169,17 +170,18 @@ def affine_ids(ctx, facts):
         e = None
         for bb, t in b.calls():
             if (F.callee(t)[0] or "").endswith("From::from") and t["d"] == [0]:
-                e = flow.expr_of(b, t["args"][0])
-        c = None
+                e = flow.expr_of(b, t["args"][0], max_depth=12)
+        okv = False
         if e is not None:
-            if e[0] == "bin" and e[1] == "Mul" and {e[2][:2], e[3][:2]} == {("arg", 1), ("arg", 2)}:
-                c = 0
-            elif e[0] == "bin" and e[1] == "Add" and e[2][0] == "bin" and e[2][1] == "Mul" and {e[2][2][:2], e[2][3][:2]} == {("arg", 1), ("arg", 2)} and e[3][0] == "const":
-                c = e[3][1]
-        ctx.ob("AFFINE-ids", f"shape:{name}", c is not None, f"{name} = total*offset + {c}" if c is not None else f"{name} is not of the form total*offset + k: {str(e)[:120]}", site_of(b))
-        if c is not None:
-            consts[name] = c
-    ctx.ob("AFFINE-ids", "distinct-constants", len(set(consts.values())) == len(consts) and len(consts) == 3, f"constant terms {consts}")
+            try:
+                ieval(e, {("arg", 1): 3, ("arg", 2): 5})
+                okv = True
+            except NoEval:
+                okv = False
+        ctx.ob("AFFINE-ids", f"shape:{name}", okv, f"{name}(offset, total) is an integer expression of its two parameters" if okv else f"{name} cannot be evaluated as a function of (offset, total): {str(e)[:120]}", site_of(b))
+        if okv:
+            exprs[name] = e
+    ctx.ob("AFFINE-ids", "distinct-constants", len(exprs) == 3, "three record-id families")
     # call sites: (function, total)
     n = 0
     for body in facts.non_test_bodies():
@@ -188,13 +190,23 @@ def affine_ids(ctx, facts):
         totals = {}
         for bb, t in body.calls():
             fn = F.callee(t)[0] or ""
-            for name in consts:
+            for name in exprs:
                 if fn.endswith("::" + name):
                     tot = F.const_int(t["args"][1])
                     totals.setdefault(tot, []).append((name, bb))
         for tot, uses in totals.items():
             n += 1
-            mx = max(consts[nm] for nm, _ in uses)
-            ok = tot is not None and tot > mx
-            ctx.ob("AFFINE-ids", f"total@{body.root}", ok, f"total={tot} > max constant term {mx} used with it ({sorted(set(nm for nm,_ in uses))})" if ok else f"total={tot} is not larger than the constant term {mx}: record ids of consecutive batches collide (PRSS value / channel record reused)", site_of(body, uses[0][1]))
+            names = sorted(set(nm for nm, _ in uses))
+            bad = None
+            if tot is None:
+                bad = "`total` is not a constant at this call site"
+            else:
+                seen = {}
+                for nm in names:
+                    for off in range(0, 33):
+                        v = ieval(exprs[nm], {("arg", 1): off, ("arg", 2): tot})
+                        if v in seen and bad is None:
+                            bad = f"{nm}(offset {off}) and {seen[v][0]}(offset {seen[v][1]}) are the same record id {v} with total={tot}: record ids of different families / consecutive batches collide (PRSS value / channel record reused)"
+                        seen.setdefault(v, (nm, off))
+            ctx.ob("AFFINE-ids", f"total@{body.root}", bad is None, f"total={tot}: ids of {names} are pairwise distinct for offsets 0..32" if bad is None else bad, site_of(body, uses[0][1]))
     ctx.floor("AFFINE-ids", "call-site groups", n, 2)
